@@ -514,6 +514,81 @@ func c07StartFront(serverYAML, pipelineYAML string) *c07Front {
 
 func (f *c07Front) Addr() string { return f.ln.Addr().String() }
 
+// c07RealFront: the package's own runtime (runtime.startServer builds the http.Server with
+// its timeouts and listens itself) in front of a real pipeline.
+type c07RealFront struct {
+	rt   *runtime
+	pl   *pipeline.Pipeline
+	addr string
+}
+
+// c07StartRuntime: serverYAML must contain "port: 10080" (replaced by a free port).
+func c07StartRuntime(serverYAML, pipelineYAML string, keepAliveMS int) *c07RealFront {
+	pspec, err := supervisor.NewSpec(pipelineYAML)
+	if err != nil {
+		panic(fmt.Sprintf("pipeline spec: %v\n%s", err, pipelineYAML))
+	}
+	pl := &pipeline.Pipeline{}
+	pl.Init(pspec, nil)
+	mm := &contexttest.MockedMuxMapper{MockedGetHandler: func(string) (context.Handler, bool) { return pl, true }}
+	for try := 0; try < 5; try++ {
+		l, err := net.Listen("tcp", "127.0.0.1:0")
+		if err != nil {
+			panic(err)
+		}
+		port := l.Addr().(*net.TCPAddr).Port
+		l.Close()
+		y := strings.Replace(serverYAML, "port: 10080", fmt.Sprintf("port: %d\nkeepAliveTimeout: %dms", port, keepAliveMS), 1)
+		sspec, err := supervisor.NewSpec(y)
+		if err != nil {
+			panic(fmt.Sprintf("server spec: %v\n%s", err, y))
+		}
+		rt := newRuntime(sspec, mm)
+		rt.reload(sspec, mm)
+		addr := fmt.Sprintf("127.0.0.1:%d", port)
+		if rt.getState() == stateRunning {
+			for i := 0; i < 200; i++ {
+				if c, err := net.DialTimeout("tcp", addr, time.Second); err == nil {
+					c.Close()
+					return &c07RealFront{rt: rt, pl: pl, addr: addr}
+				}
+				time.Sleep(5 * time.Millisecond)
+			}
+		}
+		rt.Close() // the port was taken in between: try another one
+	}
+	panic("cannot start the HTTPServer runtime on a free port")
+}
+
+func (f *c07RealFront) Close() {
+	f.rt.Close()
+	f.pl.Close()
+}
+
+// c07SlowExchange sends head, then the body pieces one by one with pause between them
+// (the connection is never idle for longer than pause), and parses one response.
+func c07SlowExchange(addr string, head []byte, pieces [][]byte, pause time.Duration) (r c07Resp) {
+	c, err := net.DialTimeout("tcp", addr, c07IOTimeout)
+	if err != nil {
+		return
+	}
+	c.SetDeadline(time.Now().Add(c07IOTimeout))
+	p := &c07Pending{c: c, br: bufio.NewReader(c), wdone: make(chan struct{})}
+	go func() {
+		defer close(p.wdone)
+		if _, err := c.Write(head); err != nil {
+			return
+		}
+		for _, b := range pieces {
+			time.Sleep(pause)
+			if _, err := c.Write(b); err != nil {
+				return
+			}
+		}
+	}()
+	return p.Finish()
+}
+
 func (f *c07Front) Close() {
 	f.srv.Close()
 	f.pl.Close()
